@@ -291,6 +291,8 @@ bool skinShape(NifFile& nif, NiShape* shape, size_t nbones, const std::function<
 			auto ws = weightsOf(v);
 			std::vector<uint8_t> ids;
 			std::vector<float> w;
+			// a vertex record holds four slots: the four strongest influences (the caller lists them strongest first)
+			if (ws.size() > 4) ws.resize(4);
 			for (auto& p : ws) {
 				ids.push_back((uint8_t) p.first);
 				w.push_back(p.second);
